@@ -36,6 +36,22 @@ impl DetectProp for C09 {
         }
         c
     }
+    fn directed(&self, thorough: bool) -> Vec<Case> {
+        let mut rng = Rng::new(99);
+        let mut v = vec![];
+        // > 1 MB: candidates that pass the sampled windows and fail only in the remainder
+        let b = large_mixed_case(&mut rng, 5);
+        v.push(Case { bytes: b.clone(), sett: Sett::default(), tag: "nomodel:large-mixed".into() });
+        let mut s = Sett::default();
+        s.incl = vec!["ascii".into(), "utf-8".into()];
+        v.push(Case { bytes: b, sett: s, tag: "large-mixed-filtered".into() });
+        if thorough {
+            let mut s = Sett::default();
+            s.steps = 3;
+            v.push(Case { bytes: large_mixed_case(&mut rng, 3), sett: s, tag: "nomodel:large-mixed-3".into() });
+        }
+        v
+    }
     fn oracle(&self, cx: &mut Ctx, case: &Case, raw: &RealRaw) {
         let s = &case.sett;
         let ms = match raw {
